@@ -40,7 +40,7 @@ type TaskRunner struct {
 	cancelFunc  context.CancelFunc
 	cancelMutex sync.RWMutex
 	canceling   bool
-	doneCh      chan struct{}
+	running     sync.WaitGroup
 
 	compiler *TaskCompiler
 
@@ -61,7 +61,6 @@ func NewTaskRunner(opts ...Opts) (*TaskRunner, error) {
 		Stderr:       os.Stderr,
 		variables:    variables.NewVariables(),
 		env:          variables.NewVariables(),
-		doneCh:       make(chan struct{}, 1),
 	}
 
 	r.ctx, r.cancelFunc = context.WithCancel(context.Background())
@@ -93,13 +92,14 @@ func (r *TaskRunner) SetVariables(vars variables.Container) *TaskRunner {
 // TaskRunner first compiles task into linked list of Jobs, then passes those jobs to Executor
 func (r *TaskRunner) Run(t *task.Task) error {
 	verifYield("run-enter", t)
-	defer func() {
-		r.cancelMutex.RLock()
-		if r.canceling {
-			close(r.doneCh)
-		}
+	r.cancelMutex.RLock()
+	if r.canceling {
 		r.cancelMutex.RUnlock()
-	}()
+		return r.ctx.Err()
+	}
+	r.running.Add(1)
+	r.cancelMutex.RUnlock()
+	defer r.running.Done()
 
 	if err := r.ctx.Err(); err != nil {
 		return err
@@ -180,7 +180,7 @@ func (r *TaskRunner) Run(t *task.Task) error {
 	return r.after(r.ctx, t, env, vars)
 }
 
-// Cancel cancels execution
+// Cancel cancels execution and waits for the runs in flight to return
 func (r *TaskRunner) Cancel() {
 	r.cancelMutex.Lock()
 	if !r.canceling {
@@ -189,7 +189,7 @@ func (r *TaskRunner) Cancel() {
 		r.cancelFunc()
 	}
 	r.cancelMutex.Unlock()
-	<-r.doneCh
+	r.running.Wait()
 }
 
 // Finish makes cleanup tasks over contexts
